@@ -113,6 +113,7 @@ static std::vector<int> quant_preset(const std::string& p) {
     if (p == "bad") return {Q_opt, Q_star, Q_plus, Q_0, Q_1, Q_2, Q_1inf, Q_02, Q_23, Q_bad};
     if (p == "small") return {Q_opt, Q_star, Q_plus, Q_02, Q_23};
     if (p == "mini") return {Q_opt, Q_star, Q_plus, Q_23};
+    if (p == "star") return {Q_opt, Q_star, Q_plus};  // N = 6: nests of counted quantifiers only measure Xerces' exponential backtracking (minutes per case)
     fprintf(stderr, "unknown quantifier preset %s\n", p.c_str());
     exit(2);
 }
@@ -342,7 +343,12 @@ struct RE : public RegularExpression {  // subclass only to *observe* protected 
     bool firstChar() const { return fFirstChar != 0; }
     const Op* ops() const { return fOperations; }
     int groups() const { return fNoGroups; }
-    bool firstCharHas(XMLInt32 ch) const { return fFirstChar && fFirstChar->match(ch); }
+    bool firstCharHas(XMLInt32 ch, bool icase = false) const {  // the set matches() filters start positions with
+        if (!fFirstChar) return false;
+        RangeToken* r = fFirstChar;
+        if (icase) r = fFirstChar->getCaseInsensitiveToken(fTokenFactory);
+        return r && r->match(ch);
+    }
     // what the matcher core returns for an attempt at `start` (end offset or -1); used only to *classify* mismatches
     int rawMatch(const U16& s, XMLSize_t start) const {
         Context ctx(XMLPlatformUtils::fgMemoryManager);
@@ -437,6 +443,13 @@ static const KnownDefect KNOWN_DEFECTS[] = {
      "an unbounded closure over a nullable body that contains another quantifier ((a*)*b, (a{0,2})+a, ((){2,3})*b ...), followed by more pattern: "
      "the inner re-entry of the outer O_CLOSURE resets Context::fOffsets[id] to -1, which defeats the empty-iteration guard; match() recurses "
      "until the stack is exhausted (process crash) - e.g. xs:pattern (a*)*b validating the value 'a'"},
+    {"nrange-overlap-possessive", "[a-z]*[^0-9]", "X", "abc", true, -2, -2,
+     "RegularExpression::doTokenOverlap(): when the op after a closure is a range op holding a negated class [^...], the closure body is "
+     "intersected with the class's *listed* characters; an empty intersection (= the body lies entirely inside the negated class) is taken as "
+     "'no overlap' and the closure is compiled as a possessive O_FINITE_CLOSURE, so [a-z]*[^0-9], \\d+[^a] ... reject strings of their language"},
+    {"icase-overlap-possessive", "B*b", "i", "b", true, -2, -2,
+     "RegularExpression::doTokenOverlap() compares the closure body with the following character/string/range case-sensitively even under option i, "
+     "so B*b (i) gets a possessive O_FINITE_CLOSURE: B* swallows the b and the match fails"},
     {"fixedstring-match-end", "a{1}", "", "a", true, 0, 1,
      "fixed-string-only shortcut of matches(): the end of group 0 is computed as start + length of the *pattern source* (fPattern) instead of the "
      "length of the fixed string, so Match::getEndPos(0) is wrong (even beyond the subject) for a{1}, escaped literals and the x option"},
@@ -461,27 +474,31 @@ static U16 cat16(const char* s) {
 static bool has_opt(const std::string& o, char ch) { return o.find(ch) != std::string::npos; }
 
 static bool dotstar_prefix(const RE* re);
+static bool finite_closure_before_nrange(const Op* op);
+static bool finite_closure_with_continuation(const Op* op);
 static bool all_starts_on_empty_line(int root, const std::vector<uint8_t>& word, const Sem& sem, bool first_only);
 // ---- classification of a verdict mismatch (nullptr: unexplained => violation)
 static const char* classify_known(bool xpath, const std::string& opts, const RE* re, int root, const StrSet& S, size_t si, const Sem& sem, bool expected, bool observed) {
     const std::vector<uint8_t>& word = S.sym[si];
     int n = (int)word.size();
     if (xpath && !has_opt(opts, 'H') && re->firstChar() && expected && !observed) {
-        PosEval P; P.set(word, sem);
-        bool all_supp = true, any = false;
-        for (int s = 0; s <= n; s++)
-            if (P.ends(root, s)) { any = true; if (s >= n || word[s] != S_U) all_supp = false; }
-        if (any && all_supp) return "headchar-surrogate";
-    }
-    if (xpath && !has_opt(opts, 'H') && re->firstChar() && !has_opt(opts, 'i') && expected && !observed) {
-        // headchar-set-too-small: every true match start is a character that the computed first-character set does not contain
+        // head-character pre-filter: every true match start is either a supplementary character (headchar-surrogate: matchStart is moved
+        // onto the low surrogate) or a character that the computed first-character set does not contain (headchar-set-too-small)
         static const XMLInt32 CP[NSYM] = {'a', 'b', 'c', 'B', '1', ' ', 0x10000, '\n', 'A'};
         PosEval P; P.set(word, sem);
-        bool all_filtered = true, any = false;
+        bool any = false, all_explained = true, all_supp = true;
         for (int s = 0; s <= n; s++)
-            if (P.ends(root, s)) { any = true; if (s < n && re->firstCharHas(CP[word[s]])) all_filtered = false; }
-        if (any && all_filtered) return "headchar-set-too-small";
+            if (P.ends(root, s)) {
+                any = true;
+                bool supp = s < n && word[s] == S_U;
+                bool filtered = s >= n || !re->firstCharHas(CP[word[s]], has_opt(opts, 'i'));
+                if (!supp) all_supp = false;
+                if (!supp && !filtered) all_explained = false;
+            }
+        if (any && all_explained) return all_supp ? "headchar-surrogate" : "headchar-set-too-small";
     }
+    if (expected && !observed && finite_closure_before_nrange(re->ops())) return "nrange-overlap-possessive";
+    if (xpath && has_opt(opts, 'i') && expected && !observed && finite_closure_with_continuation(re->ops())) return "icase-overlap-possessive";
     if (xpath && expected && !observed && dotstar_prefix(re) && !sem.dotall && all_starts_on_empty_line(root, word, sem, false)) return "dotstar-skips-empty-line";
     if (!xpath && expected && !observed) {
         int e = re->rawMatch(S.s[si], 0);
@@ -494,6 +511,32 @@ static const char* classify_known(bool xpath, const std::string& opts, const RE*
     }
     return nullptr;
 }
+// the compiled graph contains a possessive (finite) closure whose continuation is a range op holding a *negated* class token: the
+// decision can only come from doTokenOverlap() intersecting the class's listed characters instead of its complement
+static void fcbn_walk(const Op* op, std::set<const Op*>& seen, bool& found, bool any_next = false) {
+    while (op && !found && !seen.count(op)) {
+        seen.insert(op);
+        int ty = op->getOpType();
+        if (ty == Op::O_FINITE_CLOSURE || ty == Op::O_FINITE_NONGREEDYCLOSURE) {
+            const Op* nx = op->getNextOp();
+            if (nx && any_next) found = true;
+            if (nx && (nx->getOpType() == Op::O_RANGE || nx->getOpType() == Op::O_NRANGE) && nx->getToken() && nx->getToken()->getTokenType() == Token::T_NRANGE) found = true;
+        }
+        switch (ty) {
+        case Op::O_CLOSURE: case Op::O_NONGREEDYCLOSURE: case Op::O_FINITE_CLOSURE: case Op::O_FINITE_NONGREEDYCLOSURE:
+        case Op::O_QUESTION: case Op::O_NONGREEDYQUESTION:
+            fcbn_walk(op->getChild(), seen, found, any_next); break;
+        case Op::O_UNION:
+            for (XMLSize_t i = 0; i < op->getSize(); i++) fcbn_walk(op->elementAt(i), seen, found, any_next);
+            return;
+        default: break;
+        }
+        op = op->getNextOp();
+    }
+}
+static bool finite_closure_before_nrange(const Op* op) { std::set<const Op*> seen; bool found = false; fcbn_walk(op, seen, found); return found; }
+// under option i: a possessive closure that is followed by more pattern - doTokenOverlap() compares characters case-sensitively
+static bool finite_closure_with_continuation(const Op* op) { std::set<const Op*> seen; bool found = false; fcbn_walk(op, seen, found, true); return found; }
 // every reference match start sits on a line terminator at a line start (the only starts the '.*' prefix shortcut never attempts)
 static bool dotstar_prefix(const RE* re) {
     const Op* o = re->ops();
@@ -513,11 +556,18 @@ static bool all_starts_on_empty_line(int root, const std::vector<uint8_t>& word,
 static const char* classify_known_pos(const std::string& opts, const RE* re, int root, const StrSet& S, size_t si, const Sem& sem, size_t patlen, int es, int ee, int gs, int ge) {
     if (re->fixedOnly() && gs == es && ee >= 0 && ge != ee && ge == gs + (int)patlen) return "fixedstring-match-end";
     if (dotstar_prefix(re) && !sem.dotall && !re->fixedOnly() && gs != es && all_starts_on_empty_line(root, S.sym[si], sem, true)) return "dotstar-skips-empty-line";
-    // the expected leftmost start is a supplementary character and the head-character loop stepped over it
+    // the expected leftmost start is a supplementary character (the head-character loop stepped over it) or a character outside the computed set
     if (!has_opt(opts, 'H') && re->firstChar() && gs > es) {
+        static const XMLInt32 CP[NSYM] = {'a', 'b', 'c', 'B', '1', ' ', 0x10000, '\n', 'A'};
         const auto& w = S.sym[si];
-        for (size_t p = 0; p < w.size(); p++) if (S.off[si][p] == es && w[p] == S_U) return "headchar-surrogate";
+        for (size_t p = 0; p < w.size(); p++)
+            if (S.off[si][p] == es) {
+                if (w[p] == S_U) return "headchar-surrogate";
+                if (!re->firstCharHas(CP[w[p]], has_opt(opts, 'i'))) return "headchar-set-too-small";
+            }
     }
+    if (has_opt(opts, 'i') && gs > es && finite_closure_with_continuation(re->ops())) return "icase-overlap-possessive";
+    if (gs > es && finite_closure_before_nrange(re->ops())) return "nrange-overlap-possessive";
     return nullptr;
 }
 static bool explained(Ctx& c, bool xpath, const std::string& opts, const RE* re, int root, const StrSet& S, size_t si, const Sem& sem, bool expected, bool observed) {
